@@ -12,7 +12,6 @@ and the extracted Coq model (coq/Model/Startup.v, startup_gen) on the same case.
 An oracle that looks only at the implementation's outcome decides the property."""
 import errno
 import io
-import itertools
 import os
 import re
 import sys
@@ -448,7 +447,7 @@ def detect_fixes(ctx):
         impl = impl_run(case)
         fixed, asfound = strip_model(outs[2 * i]), strip_model(outs[2 * i + 1])
         ctx.case(("witness", fid, i), sample={"kind": "witness " + fid, "impl": impl[:160], "model_repaired": fixed[:80],
-                                              "model_asfound": asfound[:80]})
+                                              "model_asfound": asfound[:80]} if fid in ("F2", "F14") else None)
         ctx.count("witness_" + fid)
         if impl == fixed:
             continue
@@ -499,7 +498,8 @@ def check_option_layer(ctx):
         ctx.disagree("documented --method names", "docs/manpage.rst", doc, model_doc, None)
     for mname in doc:
         acc = parser_accepts(mname)
-        ctx.case(("method-name", mname), sample={"kind": "method name", "name": mname, "parser_accepts": acc})
+        ctx.case(("method-name", mname),
+                 sample={"kind": "method name", "name": mname, "parser_accepts": acc} if mname == "nft" else None)
         ctx.count("method_name_checked")
         if acc != (mname in options.method_choices):
             ctx.disagree("parser acceptance vs options.method_choices", mname, acc, mname in options.method_choices, None)
